@@ -253,12 +253,17 @@ def check (mst : MStack) (st : Stack) (suiteId : Nat) (master smaster pre c2s s2
   let so ← match openDir st sp.mode (writeKeys kb .server) 0x0101 "server->client" startS sv.prot with
     | .ok o => pure o
     | .error (t, why) => throw (t, why ++ (if t == "record-open" then explainKeys st sp master chello.random shello.random .server sv.prot.head? else ""))
+  -- (a DTLCP flight may be retransmitted: identical copies of the Finished are one message)
   let cfinMsg ← match co.hs with
-    | [m] => if m.typ == 20 && m.body.length == 12 then pure m else throw ("hs-shape", "client's protected handshake message is not a 12-byte Finished")
-    | l => throw ("hs-shape", s!"client sent {l.length} protected handshake messages, expected one Finished")
+    | m :: rest =>
+      if !rest.all (fun (x : Msg) => x.full == m.full) then throw ("hs-shape", s!"client sent {rest.length + 1} different protected handshake messages, expected one Finished")
+      else if m.typ == 20 && m.body.length == 12 then pure m else throw ("hs-shape", "client's protected handshake message is not a 12-byte Finished")
+    | [] => throw ("hs-shape", "client sent no protected Finished")
   let sfinMsg ← match so.hs with
-    | [m] => if m.typ == 20 && m.body.length == 12 then pure m else throw ("hs-shape", "server's protected handshake message is not a 12-byte Finished")
-    | l => throw ("hs-shape", s!"server sent {l.length} protected handshake messages, expected one Finished")
+    | m :: rest =>
+      if !rest.all (fun (x : Msg) => x.full == m.full) then throw ("hs-shape", s!"server sent {rest.length + 1} different protected handshake messages, expected one Finished")
+      else if m.typ == 20 && m.body.length == 12 then pure m else throw ("hs-shape", "server's protected handshake message is not a 12-byte Finished")
+    | [] => throw ("hs-shape", "server sent no protected Finished")
   -- transcripts
   let base := ch.full ++ flat splain ++ flat (cplain.drop 1)
   let (trC, trS) := if resumed then (base ++ sfinMsg.full, base) else (base, base ++ cfinMsg.full)
